@@ -142,10 +142,12 @@ func (k *vsK8s) GetClient() client.Client                      { return nil }
 func (k *vsK8s) NodeName() string                              { return "node-1" }
 func (k *vsK8s) Node() *corev1.Node                            { return &corev1.Node{} }
 
-func (k *vsK8s) setPod(name, uid string, stick bool) {
+func (k *vsK8s) setPod(name, uid string, stick bool) { k.setPodOpt(name, uid, stick, false) }
+
+func (k *vsK8s) setPodOpt(name, uid string, stick, erdma bool) {
 	k.mu.Lock()
 	defer k.mu.Unlock()
-	info := &daemon.PodInfo{Name: name, Namespace: "ns", PodNetworkType: daemon.PodNetworkTypeENIMultiIP, PodUID: uid}
+	info := &daemon.PodInfo{Name: name, Namespace: "ns", PodNetworkType: daemon.PodNetworkTypeENIMultiIP, PodUID: uid, ERdma: erdma}
 	if stick {
 		info.IPStickTime = 5 * time.Minute
 	}
@@ -160,9 +162,15 @@ type vsStore struct {
 	hook func(op, key, phase string)
 	// listHook is called in every List after the records were read, before they are returned
 	listHook func()
+	// failPut: the next Put for this key fails without writing (a database write error)
+	failPut string
 }
 
 func (s *vsStore) Put(key string, value interface{}) error {
+	if s.failPut != "" && s.failPut == key {
+		s.failPut = ""
+		return fmt.Errorf("injected: database write failed")
+	}
 	if s.hook != nil {
 		s.hook("put", key, "before")
 	}
@@ -222,6 +230,9 @@ type vsPoolCfg struct {
 	// Trunk: the first pre-attached interface is the node's trunk interface (enable_eni_trunking):
 	// its pool sits behind eni.Trunk, as NetworkServiceBuilder.setupENIManager wires it
 	Trunk bool `json:"trunk,omitempty"`
+	// Erdma: number of ERDMA interface slots (enable_erdma): pods that ask for ERDMA are served
+	// from interfaces of type "erdma" only, as NetworkServiceBuilder.setupENIManager wires them
+	Erdma int `json:"erdma,omitempty"`
 }
 
 // vsAddPreENIs creates the pre-attached interfaces of a pool configuration in the cloud.
@@ -378,6 +389,7 @@ func vsStart(cfg vsPoolCfg, cloud *cloudsim.Cloud, k *vsK8s, dir, dbPath string)
 
 	var nis []eni.NetworkInterface
 	maxENI := len(cfg.PreENIs) + cfg.Slots
+	nErdma := 0
 	for _, a := range attached {
 		if cfg.Trunk && a.Trunk {
 			lo := eni.NewLocal(a, "trunk", fac, pc)
@@ -385,11 +397,23 @@ func vsStart(cfg vsPoolCfg, cloud *cloudsim.Cloud, k *vsK8s, dir, dbPath string)
 			nis = append(nis, eni.NewTrunk(nil, lo))
 			continue
 		}
+		if cfg.Erdma > 0 && a.ERdma {
+			nErdma++
+			lo := eni.NewLocal(a, "erdma", fac, pc)
+			w.locals = append(w.locals, lo)
+			nis = append(nis, lo)
+			continue
+		}
 		lo := eni.NewLocal(a, "secondary", fac, pc)
 		w.locals = append(w.locals, lo)
 		nis = append(nis, lo)
 	}
-	for i := len(attached); i < maxENI; i++ {
+	for i := nErdma; i < cfg.Erdma; i++ {
+		lo := eni.NewLocal(nil, "erdma", fac, pc)
+		w.locals = append(w.locals, lo)
+		nis = append(nis, lo)
+	}
+	for i := len(attached) - nErdma; i < maxENI; i++ {
 		lo := eni.NewLocal(nil, "secondary", fac, pc)
 		w.locals = append(w.locals, lo)
 		nis = append(nis, lo)
@@ -401,7 +425,7 @@ func vsStart(cfg vsPoolCfg, cloud *cloudsim.Cloud, k *vsK8s, dir, dbPath string)
 			nis[i] = &vsFailNIShared{NetworkInterface: nis[i], shared: w.failNI}
 		}
 	}
-	mgr := eni.NewManager(cfg.MinIdle, cfg.MaxIdle, cfg.Cap*maxENI, 0, nis, daemon.EniSelectionPolicy(cfg.Policy), nil)
+	mgr := eni.NewManager(cfg.MinIdle, cfg.MaxIdle, cfg.Cap*(maxENI+cfg.Erdma), 0, nis, daemon.EniSelectionPolicy(cfg.Policy), nil)
 	w.svc = &networkService{
 		daemonMode: daemon.ModeENIMultiIP,
 		k8s:        k,
